@@ -13,9 +13,9 @@ vars == <<codec, st, txt, res>>
 \* case where decoding is case-insensitive, '=', a non-alphabet ASCII
 \* character, a non-ASCII character
 Chars(c) ==
-  CASE c = "b16" -> {48, 70, 97, 53, 71, 61, 233}            \* 0 F a 5 G = e-acute
-    [] c = "b32" -> {48, 86, 118, 65, 87, 61, 233}           \* 0 V v A W = e-acute
-    [] c = "b64" -> {65, 47, 81, 102, 61, 33, 233}           \* A / Q f = ! e-acute
+  CASE c = "b16" -> {48, 70, 97, 53, 71, 61, 128}            \* 0 F a 5 G = U+0080
+    [] c = "b32" -> {48, 86, 118, 65, 87, 61, 128}           \* 0 V v A W = U+0080
+    [] c = "b64" -> {65, 47, 81, 102, 61, 33, 128}           \* A / Q f = ! U+0080
 
 Init == /\ codec \in Codecs
         /\ st = InitOf(codec)
@@ -66,7 +66,26 @@ EmitDec == PrintT("CASE " \o ToJson(
               [in  |-> [kind |-> "dec", codec |-> codec, text |-> txt, scan |-> Scannable],
                exp |-> [fin |-> FinOf(codec, st), dec |-> DecOf(codec, txt),
                         conv |-> DecOf(codec, txt), sticky |-> TRUE]
-                       @@ (IF Scannable THEN [scan |-> DecOf(codec, txt)] ELSE <<>>)]))
+                       @@ (IF Scannable THEN [scan |-> DecOf(codec, txt), iscan |-> DecOf(codec, txt)]
+                           ELSE <<>>)]))
+
+\* Alphabet-table probe: every code point 0..384 (both sides of every range
+\* boundary of every alphabet, and of the 128-entry decode tables) plus large
+\* ones, at every position of one otherwise valid group.
+ProbeChars == (0..384) \cup {65535, 65536, 1114111}
+ProbeTexts(c) ==
+  CASE c = "b16" -> {<<x, 48>> : x \in ProbeChars} \cup {<<48, x>> : x \in ProbeChars}
+    [] c = "b32" -> {<<x, 48>> : x \in ProbeChars} \cup {<<48, x>> : x \in ProbeChars}
+    [] c = "b64" -> {<<x, 65, 65, 65>> : x \in ProbeChars} \cup {<<65, x, 65, 65>> : x \in ProbeChars}
+                    \cup {<<65, 65, x, 65>> : x \in ProbeChars} \cup {<<65, 65, 65, x>> : x \in ProbeChars}
+EmitProbe == (codec = "b16" /\ txt = <<>>) =>
+   \A c \in Codecs : \A t \in ProbeTexts(c) :
+      PrintT("CASE " \o ToJson(
+              [in  |-> [kind |-> "dec", codec |-> c, text |-> t, scan |-> FALSE],
+               exp |-> [fin |-> FinOf(c, RunPushes(c, InitOf(c), t)), dec |-> DecOf(c, t),
+                        conv |-> DecOf(c, t), sticky |-> TRUE]]))
+ProbeLaw == (codec = "b16" /\ txt = <<>>) =>    \* machines = functions on the probe texts too
+   \A c \in Codecs : \A t \in ProbeTexts(c) : FinOf(c, RunPushes(c, InitOf(c), t)) = DecOf(c, t)
 
 EmitEnc == codec = "b16" /\ txt = <<>> =>
    \A c \in Codecs : \A o \in SeqsUpTo(Octs, MaxOct) :
